@@ -22,7 +22,7 @@ def long_str(b):
     return struct.pack('>I', len(b)) + b
 
 
-WIDE_TEXT = ['', 'a', 'é', '€', '\U0001F600', 'key', 'x-max-length', 'Z' * 40, '\x00', 'a b', 'ключ', '{}', 'x-{t}-ttl', '%s', '{0}']
+WIDE_TEXT = ['', 'a', 'é', '€', '\U0001F600', 'key', 'x-max-length', 'Z' * 40, '\x00', 'a b', 'ключ', '{}', 'x-{t}-ttl', '%s', '{0}', '\ufeff', '\ufeffk', ' k', 'k ', '\u200b']
 
 
 def rand_key(rng):
